@@ -40,6 +40,10 @@ CHECKS = {
                 technique="symbolic execution of the compiled InitRenorm / RenormAbundance / GetElementAbund / GetHNuclei + SMT (non-linear real arithmetic): with the linear solve as the constraint A(ab) r = b, element totals after renormalisation equal reference ratio x hydrogen nuclei for all ab > 0",
                 text="For networks with multi-element molecules, ions, isotopologues/ortho-para species, ice species and dust grains: z3 shows for all positive abundances and all solutions r that every element total after RenormAbundance is b_i*H, that H is preserved when b_H=1, that electrons are untouched, that GetElementAbund is the count-weighted sum, that A(ab)*1 is the current ratio vector and every factor is 1 at r=1 (identity), and that no term divides by the literal 0.0.",
                 note="The LU/SUNLinSol solve is modelled by its defining equation; nonsingular A assumed for uniqueness; real arithmetic; elements are the atomic species present (generator's definition)."),
+    "C11": dict(engine=E1, cat="translation_validation", sec="6 C11",
+                technique="symbolic execution of the compiled EvalRates (exact literals, libm uninterpreted) for Leeds- and UCLCHEM-format grain reactions under each dust model + SMT equivalence with independently written Hasegawa-Herbst / Roberts et al. formulae; native libm replay; unsupported (model, process) pairs must be refused",
+                text="For accretion (neutral / ion / electron), thermal, cosmic-ray, photo and H2-formation desorption, grain recombination and electron capture under hh93, hh93i, rr07, rr07x and species CO, H2O, CH4, C, H, C+, H3O+, e- (RATE12 and user-supplied binding energies and yields) z3 shows 'exists physical parameters: k[i] assigned and != law' unsat; models asked for a process they do not implement refuse at generation time.",
+                note="Mass numbers and binding energies are read independently; physical constants as the project defines them; surface two-body and reactive desorption are outside the encoded set; GetMantleDens opaque."),
     "C13": dict(engine=E1, cat="translation_validation", sec="6 C13",
                 technique="differential symbolic execution: compiled EvalRates/Fex of the project with modifiers vs. the plain project vs. the modifier text (exact arithmetic reader), SMT equivalence per reaction and species; API path and init->TOML->render path compared",
                 text="For rate-modifier sets (index present / absent / shared by two reactions / index 0 / negative and compound values / unindexed network re-indexed by joining order) z3 shows k[i] equals the modifier value exactly for the reactions carrying the key and equals the unmodified rate (guard included) for all others; for ODE-modifier sets (1-3 dependencies, repeated, signed/compound factors) ydot differs from the plain project by exactly factor x product on the target species; the project rendered through the configuration file is term-equivalent to the API rendering.",
